@@ -1,5 +1,6 @@
 import OpcuaModel.Base.Loop
 import OpcuaModel.Model.Recv
+import OpcuaModel.Gen.RecvFacts
 /-
   Text forms shared by the drivers of the receive-path properties
   (C12, C10, C13): a chunk is `<ct>:<seq>:<req>:<hex>`, results are
@@ -41,7 +42,7 @@ def handleRecv : List String → String
   | mc :: mm :: cs =>
     match mc.toNat?, mm.toNat?, parseChunks cs with
     | some mc, some mm, some cs =>
-      let cfg : Cfg := ⟨mc, mm⟩
+      let cfg : Cfg := ⟨mc, mm, Gen.RecvFacts.chunkLimitZeroUnlimited, Gen.RecvFacts.sizeLimitZeroUnlimited⟩
       let outs := runOuts cfg [] cs
       let fin := runFinal cfg [] cs
       " ".intercalate (outs.map Out.text ++ [heldText fin])
@@ -55,7 +56,7 @@ def handleSealed : List String → String
   | mc :: mm :: fs =>
     match mc.toNat?, mm.toNat? with
     | some mc, some mm =>
-      let cfg : Cfg := ⟨mc, mm⟩
+      let cfg : Cfg := ⟨mc, mm, Gen.RecvFacts.chunkLimitZeroUnlimited, Gen.RecvFacts.sizeLimitZeroUnlimited⟩
       -- a frame is represented by its token; `unwrap` parses it
       let unwrap : Bytes → Option Chunk := fun b =>
         match String.fromUTF8? (ByteArray.mk b.toArray) with
